@@ -94,8 +94,8 @@ func classify(pkgPath, name string) class {
 	case "crypto/rand":
 		return clCrypto
 	case "math/rand", "math/rand/v2":
-		if pkgPath == "math/rand" && (name == "math/rand.Seed" || name == "(*math/rand.Rand).Seed") {
-			return clSeeder
+		if name == "math/rand.Seed" || strings.HasSuffix(name, ").Seed") {
+			return clSeeder // math/rand.Seed, (*rand.Rand).Seed, (*rand/v2.PCG).Seed, (*rand/v2.ChaCha8).Seed
 		}
 		return clMath
 	case "math/big":
@@ -1004,6 +1004,7 @@ func main() {
 
 	// witness paths: entry -> generator, entry -> seeder
 	var witness [][]int
+	var usedIDs []int
 	for _, g := range genIDs {
 		var best []int
 		for _, e := range entryIDs {
@@ -1012,9 +1013,12 @@ func main() {
 			}
 		}
 		if best == nil {
+			// an anchor that exists but is not used on any path from an entry point: it still has to be a
+			// crypto/rand generator (somebody may call it), but there is no path to show
 			x.notes = append(x.notes, "generator not reachable from any entry point: "+names[g])
-			best = []int{}
+			continue
 		}
+		usedIDs = append(usedIDs, g)
 		witness = append(witness, best)
 	}
 	var seedPath []int
@@ -1117,7 +1121,8 @@ func main() {
 	w("def generators : List Nat := %s\n", natList(genIDs))
 	w("/-- virtual nodes, one per secret: out-edges = every call in the backward slice of the secret-carrying field -/\n")
 	w("def secrets : List Nat := %s\n\n", natList(secretIDs))
-	w("/-- for each generator (same order) a path from an entry point to it -/\ndef witnessPaths : List (List Nat) := [")
+	w("/-- the generators that lie on a path from an entry point -/\ndef usedGenerators : List Nat := %s\n", natList(usedIDs))
+	w("/-- for each used generator (same order) a path from an entry point to it -/\ndef witnessPaths : List (List Nat) := [")
 	for i, p := range witness {
 		if i > 0 {
 			w(", ")
@@ -1128,7 +1133,7 @@ func main() {
 	w("/-- a path from an entry point to a seeder (empty if there is none) -/\ndef seedPath : List Nat := %s\n\n", natList(seedPath))
 	w("def model : Model := {\n  adj := adj, chunk := chunk, numNodes := numNodes, leaves := leaves, cryptoRand := cryptoRand, mathRand := mathRand,\n")
 	w("  seeders := seeders, clock := clock, suspect := suspect, readerStores := readerStores, entries := entries,\n")
-	w("  generators := generators, secrets := secrets, witnessPaths := witnessPaths, seedPath := seedPath, ok := ok }\n\n")
+	w("  generators := generators, usedGenerators := usedGenerators, secrets := secrets, witnessPaths := witnessPaths, seedPath := seedPath, ok := ok }\n\n")
 	w("end Mtv.Gen.CallGraph\n")
 	changed := writeIfChanged(*out, b.Bytes())
 	writeJSON(*jsonOut, &sum)
@@ -1164,7 +1169,7 @@ func failStub(msg string) []byte {
 	b.WriteString("import Mtv.Rand.Graph\nnamespace Mtv.Gen.CallGraph\nopen Mtv.Rand\n")
 	b.WriteString("def names : List String := []\n")
 	b.WriteString("def model : Model := {\n  adj := [], chunk := 1, numNodes := 0, leaves := [], cryptoRand := [], mathRand := [], seeders := [], clock := [],\n")
-	b.WriteString("  suspect := [], readerStores := [], entries := [], generators := [], secrets := [], witnessPaths := [], seedPath := [], ok := false }\n")
+	b.WriteString("  suspect := [], readerStores := [], entries := [], generators := [], usedGenerators := [], secrets := [], witnessPaths := [], seedPath := [], ok := false }\n")
 	b.WriteString("end Mtv.Gen.CallGraph\n")
 	return b.Bytes()
 }
